@@ -3,4 +3,4 @@ CONSTANTS
   MaxSeg = 1
   MaxDepth = 1
   Mut = "wrongparam"
-INVARIANTS FirstMatch NoPrefix MatcherAgrees MapThenRoute
+INVARIANTS FirstMatch NoPrefix MatcherAgrees MapThenRoute PoolWhole
